@@ -202,7 +202,7 @@ def write_replay(pid, seed, tier, index, scn, sig, digest, detail) -> str:
         json.dump({"property": pid, "seed": seed, "tier": tier, "index": index, "schema": 1,
                    "scenario": scn,
                    "expect": {"signature": list(sig), "digest": digest, "detail": detail}},
-                  f, indent=1, sort_keys=True)
+                  f, indent=1)  # key order is part of the scenario (e.g. registry insertion order)
     return path
 
 
